@@ -15,7 +15,7 @@
 //! Every action is followed by polling the connection task to quiescence (handler state changes
 //! happen inside the connection task in production, which is polled again afterwards).
 
-use crate::probe::{ms_msg, Driver, FOREVER, MS_HEADER};
+use crate::probe::{ms_msg, Driver, Wrap, FOREVER, MS_HEADER, WRAPS};
 use kit::pipe::{End, Handle};
 use libp2p_swarm::{verif_delay, ConnectionError};
 use mc::bfs::{self, System};
@@ -26,7 +26,7 @@ use std::time::{Duration, Instant};
 
 pub const META: Meta = Meta {
     level: "model_checking",
-    rule: "BFS over all histories (depth 8 quick / 11 thorough) of: open inbound stream (<=2), complete / abort its negotiation, handler requests outbound stream (<=2), muxer grants it, complete / abort its negotiation, drop a negotiated stream, mark it ignore_for_keep_alive, close its write half while still holding it, flip the handler's keep-alive, advance the virtual clock by 2 s / 4 s / 40 s; idle_timeout 4 s and, separately, 0 s. States deduplicated on the abstract model (per-stream status, counts, keep-alive, idle-for) + the implementation's observable projection (handler log, held streams, live timer deadlines relative to now, muxer queues). Non-trivial = states with at least one stream / request / negotiation ever created.",
+    rule: "BFS over all histories (depth 8 quick / 11 thorough) of: open inbound stream (<=2), complete / abort its negotiation, handler requests outbound stream (<=2), muxer grants it, complete / abort its negotiation, drop a negotiated stream, mark it ignore_for_keep_alive, close its write half while still holding it, flip the handler's keep-alive, advance the virtual clock by 2 s / 4 s / 40 s; idle_timeout 4 s and, separately, 0 s; the probe handler plain (full depth) and wrapped in libp2p-swarm's own combinators (depth - 2): map_out_event, select (keep-alive asked by the first / by the second handler), Either::Left / Right, ToggleConnectionHandler. States deduplicated on the abstract model (per-stream status, counts, keep-alive, idle-for) + the implementation's observable projection (handler log, held streams, live timer deadlines relative to now, muxer queues). Non-trivial = states with at least one stream / request / negotiation ever created.",
     explanation: "Each step runs the production Connection::poll to quiescence and compares its result with the model (safety on every step, liveness after the 40 s advance); un-deduplicated DFS companion at smaller depth.",
     assumptions: &["every action is followed by a poll of the connection task", "stream-upgrade timeouts are set beyond the horizon (only the idle timer is explored)", "multistream-select negotiation is completed by injecting the remote's messages in one piece"],
 };
@@ -83,12 +83,12 @@ pub struct Sys {
 }
 
 impl Sys {
-    pub fn new(idle_timeout_s: u64) -> Self {
+    pub fn new(idle_timeout_s: u64, wrap: Wrap) -> Self {
         mc::vclock::reset();
         verif_delay::reset_registry();
         let t = Duration::from_secs(idle_timeout_s);
         let keep_alive = idle_timeout_s == 0;
-        let d = Driver::new(vec!["/a".into()], keep_alive, t, FOREVER, 4);
+        let d = Driver::new_wrapped(wrap, vec!["/a".into()], keep_alive, t, FOREVER, 4);
         let mut s = Sys { d, t, neg_in: vec![], neg_out: vec![], remotes: vec![], req_out: 0, streams: vec![], keep_alive, idle_since: None, closed: false, opened_in: 0, requested_out: 0, ever_busy: keep_alive, err: None };
         s.settle();
         match s.d.run() {
@@ -251,7 +251,7 @@ impl System for Sys {
                 self.streams[*k as usize].write_closed = true;
             }
             Act::KeepAlive(b) => {
-                self.d.h.lock().unwrap().keep_alive = *b;
+                self.d.ka.lock().unwrap().keep_alive = *b;
                 self.keep_alive = *b;
             }
             Act::Adv(i) => {
@@ -338,19 +338,22 @@ pub fn run(ctx: &Ctx) -> Outcome {
     if let Some(case) = &ctx.replay {
         out.evaluations = 1;
         let t = case["cfg"]["idle_timeout_s"].as_u64().unwrap_or(4);
-        if let Err(m) = bfs::replay_history(Sys::new(t), case) {
+        let wrap: Wrap = serde_json::from_value(case["cfg"]["wrap"].clone()).unwrap_or(Wrap::Plain);
+        if let Err(m) = bfs::replay_history(Sys::new(t, wrap), case) {
             out.violation(bfs::signature_of(&m), m, case.clone());
         }
         return out;
     }
     let depth = ctx.tier.pick(8, 11);
     let ddepth = ctx.tier.pick(5, 6);
-    for t in [4u64, 0] {
-        let cfg: Value = json!({"idle_timeout_s": t});
-        let (st, v) = bfs::bfs_replay(|| Sys::new(t), depth, 3_000_000);
+    for (wrap, t) in WRAPS.iter().flat_map(|w| [(*w, 4u64), (*w, 0)]) {
+        // the plain handler is explored to the full depth, the wrapped ones two levels less
+        let (depth, ddepth) = if wrap == Wrap::Plain { (depth, ddepth) } else { (depth - 2, ddepth - 1) };
+        let cfg: Value = json!({"idle_timeout_s": t, "wrap": wrap});
+        let (st, v) = bfs::bfs_replay(|| Sys::new(t, wrap), depth, 3_000_000);
         out.count(&format!("states_timeout_{t}s"), st.states);
         bfs::record(&mut out, &cfg, &st, &v);
-        let (n, capped, v2) = bfs::dfs_all(|| Sys::new(t), ddepth, 3_000_000);
+        let (n, capped, v2) = bfs::dfs_all(|| Sys::new(t, wrap), ddepth, 3_000_000);
         out.count("dfs_companion_sequences", n);
         out.evaluations += n;
         out.traces += n;
